@@ -51,6 +51,18 @@ fn main() {
         }
         return;
     }
+    if args[1] == "fuzzdbg" {
+        // debugging aid: vcheck fuzzdbg <target> <file>: decode + evaluate one fuzz input
+        install_panic_hook();
+        let t = vcheck::fuzzing::target(&args[2]).expect("target");
+        init_known(t.prop());
+        let data = std::fs::read(&args[3]).expect("file");
+        match t.eval_bytes(&data) {
+            None => println!("undecodable"),
+            Some(ev) => println!("driver={} known={:?} verdict={:?}\ncase={}", ev.driver, ev.known, ev.outcome.verdict, ev.case),
+        }
+        return;
+    }
     if args[1] == "sched" {
         install_panic_hook();
         sched_demo(&args[2]);
